@@ -17,7 +17,8 @@ HOSTILE_TEXT = [
 CR_TEXT = ['a\ue00db', 'line\ue00d\nend', '\ue00d']
 NOTE_TEXT = ['(BONG)', '<VT IN>', '(', ')', '()', '<>', '( x )', '  (padded note)  ', '(half', 'half)',
              '(mix>', '<mix)', '', ' ', '\n  \n', 'plain (with) brackets', '<a> and <b>', '(a) then (b)']
-HOSTILE_IDS = ['S1', 'S10', 'S1 ', ' S1', 's1', 'S01', 'A&B', 'x<y', 'q"q', "o'o", 'éè', '\U0001F600',
+HOSTILE_IDS = ['S1', 'S10', 'S1 ', ' S1', 's1', 'S01', 'A&B', 'x<y', 'q"q', "o'o", '5" x 7\' card',
+               'B"][itemID=\'B\'][itemID="B', 'éè', '\U0001F600',
                'a,b,c', '0', '-1', 'None', 'ID WITH SPACE', 'storyID', 'item', '..']
 
 
@@ -77,7 +78,7 @@ def rand_timing(rng, mode='any'):
         if mode == 'any' and rng.random() < 0.2:
             return B.timing()                    # empty payload
         return None
-    q = lambda: rng.randint(0, 64) / 8
+    q = lambda: 0 if rng.random() < 0.12 else rng.randint(0, 64) / 8      # zero is a duration too
     kw = {}
     c = rng.random()
     if c < 0.3:
@@ -237,7 +238,8 @@ def new_story_for(rng, story_id, pool, timing='any', rich=True):
 
 
 def rand_message(rng, state, kind, message_id, ids, pool=None, ro_id='RO', timing='any',
-                 shape_weights=(0.78, 0.1, 0.08, 0.04), selfref=0.06, rich=True, pretty=None):
+                 shape_weights=(0.78, 0.1, 0.08, 0.04), selfref=0.06, rich=True, pretty=None,
+                 blank_carried=0.0):
     """One message of `kind` aimed at the abstract state `state` (an Abs).
     Returns message text.  References are drawn against the actual state so
     that most messages bite."""
@@ -257,6 +259,8 @@ def rand_message(rng, state, kind, message_id, ids, pool=None, ro_id='RO', timin
                 i = rng.choice(S)
             else:
                 i = ids.new()
+            if blank_carried and rng.random() < blank_carried:
+                i = BLANK                     # a carried story with an empty <storyID/>
             out.append(new_story_for(rng, i, pool, timing, rich))
         return out
 
@@ -281,6 +285,9 @@ def rand_message(rng, state, kind, message_id, ids, pool=None, ro_id='RO', timin
         for _ in range(n):
             chosen.append(ref(S, allow_absent=False, exclude=() if rng.random() < selfref else
                               tuple(c for c in chosen if isinstance(c, str))))
+        if kind == 'EAStoryDelete' and rng.random() < 0.4:
+            # element_target is "not needed" for a delete, but it may be there - and must be ignored
+            kw['target'] = rng.choice([BLANK, 'UNKNOWN-t'] + [x for x in S if x not in chosen][:2])
         return B.msg_doc(kind, message_id, ro_id, ids=chosen, **kw)
     if kind == 'EAStoryMove':
         n = rng.choice([1, 1, 2, 2, 3])
@@ -471,6 +478,12 @@ def story_grid_messages(S, kmax=3, full=True):
         for s in S[:2]:
             yield kind, dict(ids=[s, s])
         yield kind, dict(ids=[UNK, 'ZZ-2'])
+        if kind == 'EAStoryDelete':
+            # an element_target that the operation does not need: must be ignored
+            for tup in _k_tuples(list(S) + [UNK], 2):
+                rest = [x for x in S if x not in tup]
+                for t in rest[:2] + [BLANK, 'ZZ-target']:
+                    yield kind, dict(ids=tup, target=t)
     # EA move
     for tup in _k_tuples(list(S), kmax):
         rest = [x for x in S if x not in tup]
@@ -599,6 +612,12 @@ def shape_product(rng, state, ids, pool, rich=True, kinds=None):
                     yield kind, (t,), dict(target=_concrete(t, S, []), carried=stories(rng.choice([1, 2])))
                 if kind.startswith('EA'):
                     yield kind, ('noel',), dict(target=ABSENT, target_el=False, carried=stories(1))
+                if S:
+                    # reference tag missing while the message CARRIES a story whose ID is in the running order
+                    same = new_story_for(rng, S[0], pool, rich=rich)
+                    yield kind, ('absent+carried-existing',), dict(target=ABSENT, carried=[same] + stories(1))
+                    yield kind, ('blank+carried-existing',), dict(target=BLANK, carried=stories(1) + [
+                        new_story_for(rng, S[-1], pool, rich=rich)])
             elif kind == 'roStorySend':
                 for t in SHAPES:
                     yield kind, (t,), dict(story_ref=_concrete(t, S, []),
@@ -634,6 +653,12 @@ def shape_product(rng, state, ids, pool, rich=True, kinds=None):
                     for t in SHAPES:
                         yield kind, (sshape, t), dict(story_ref=sref, target=_concrete(t, I, []),
                                                       carried=items(rng.choice([1, 2])))
+                    if I:
+                        same = rand_item(rng, I[0], pool, rich)
+                        yield kind, (sshape, 'absent+carried-existing'), dict(story_ref=sref, target=ABSENT,
+                                                                             carried=[same] + items(1))
+                        yield kind, (sshape, 'blank+carried-existing'), dict(story_ref=sref, target=BLANK,
+                                                                            carried=items(1) + [rand_item(rng, I[-1], pool, rich)])
                 elif kind in ('roItemDelete', 'EAItemDelete', 'EAItemSwap'):
                     for a in SHAPES:
                         for b in SHAPES:
